@@ -186,4 +186,79 @@ def rearm (now : Int) (m : M) : Pub → Int
   | .error | .refused => getTTL now m.expire / 4
   | .dropped | .sent => getTTL now m.expire / 2
 
+/-! ### round 8c: the loop body of `pushInformerMetrics` as a statement program (`Gen.rearmProg`)
+
+tokens: `send`; `discard=err` (`if err == nil && metric.Discard() { err = … }`); `err?retry/N` (`if err != nil { …;
+timer.Reset(metric.GetTTL()/N); continue }`); `bad?retry/N` (same branch under `err != nil || metric.Discard()`);
+`rearm/N` (the regular `timer.Reset(metric.GetTTL()/N)`, last statement). -/
+
+/-- the tokens with a divisor, fixed list (anything else is refused): kind 0 = `err?retry`, 1 = `bad?retry`, 2 = `rearm` -/
+def rearmTok : String → Option (Nat × Int)
+  | "err?retry/1" => some (0, 1) | "err?retry/2" => some (0, 2) | "err?retry/3" => some (0, 3)
+  | "err?retry/4" => some (0, 4) | "err?retry/8" => some (0, 8)
+  | "bad?retry/1" => some (1, 1) | "bad?retry/2" => some (1, 2) | "bad?retry/3" => some (1, 3)
+  | "bad?retry/4" => some (1, 4) | "bad?retry/8" => some (1, 8)
+  | "rearm/1" => some (2, 1) | "rearm/2" => some (2, 2) | "rearm/3" => some (2, 3) | "rearm/4" => some (2, 4)
+  | _ => none
+
+/-- `bad` = the `err` variable is non-nil; `inv` = the metric was discardable at the call (`PublishMetric` dropped it) -/
+def interpRearmFrom (ttl : Int) (inv : Bool) : Bool → List String → Option Int
+  | _, [] => none
+  | bad, "send" :: r => interpRearmFrom ttl inv bad r
+  | bad, "discard=err" :: r => interpRearmFrom ttl inv (bad || inv) r
+  | bad, tok :: r =>
+    match rearmTok tok with
+    | some (0, n) => if bad then some (ttl / n) else interpRearmFrom ttl inv bad r
+    | some (1, n) => if bad || inv then some (ttl / n) else interpRearmFrom ttl inv bad r
+    | some (2, n) => if r.isEmpty then some (ttl / n) else none
+    | _ => none
+
+def pubIsErr : Pub → Bool
+  | .error | .refused => true
+  | _ => false
+
+def pubUndelivered : Pub → Bool
+  | .sent => false
+  | _ => true
+
+/-- the delay the interpreted loop body re-arms the timer with -/
+def interpRearm (prog : List String) (now : Int) (m : M) (p : Pub) : Option Int :=
+  interpRearmFrom (getTTL now m.expire) (decide (p = .dropped) || decide (p = .refused)) (pubIsErr p) prog
+
+def rearmShipped : List String := ["send", "err?retry/4", "rearm/2"]
+/-- the proposed repair (notes/proposed_fixes/C09-2.diff): an invalid metric is retried like a publish error -/
+def rearmRepaired : List String := ["send", "discard=err", "err?retry/4", "rearm/2"]
+
+/-- the repaired re-arm as a function -/
+def rearmFixed (now : Int) (m : M) : Pub → Int
+  | .sent => getTTL now m.expire / 2
+  | _ => getTTL now m.expire / 4
+
+/-! nominal schedule of the loop: the timer fires exactly after the delay; every metric built at `t` expires at `t + ttl`
+    (answered and failed RPC alike). `outs` = what happened at attempts 1, 2, … -/
+
+def schedFrom (prog : List String) (ttl : Int) : Int → List Pub → Option (List Int)
+  | _, [] => some []
+  | t, p :: r =>
+    match interpRearm prog t { valid := !(decide (p = .dropped)), value := some 0, expire := setTTL t ttl } p with
+    | none => none
+    | some d => (schedFrom prog ttl (t + d) r).map (t :: ·)
+
+/-- the lateness rule of the cadence suite on attempt instants `ts` (attempt `j` is late when it does not come before the
+    expiry of the metric of attempt `j-1`, or - that one undelivered, the one before delivered - before the expiry of `j-2`) -/
+def lateFrom (ttl : Int) : List (Int × Pub) → Nat
+  | a :: b :: c :: r =>
+    (if decide (b.1 + ttl ≤ c.1) || (pubUndelivered b.2 && !pubUndelivered a.2 && decide (a.1 + ttl ≤ c.1)) then 1 else 0)
+      + lateFrom ttl (b :: c :: r)
+  | _ => 0
+
+def lateCount (prog : List String) (ttl : Int) (outs : List Pub) : Option Nat :=
+  match schedFrom prog ttl 0 outs with
+  | none => none
+  | some ts =>
+    let l := ts.zip outs
+    match l with
+    | a :: b :: _ => some ((if decide (a.1 + ttl ≤ b.1) then 1 else 0) + lateFrom ttl l)
+    | _ => some 0
+
 end CV.C09.Glue
